@@ -117,8 +117,8 @@ LIB_VARIANTS = {
                                         '-DMIR_MAX_INSNS_FOR_INLINE=0', '-DMIR_MAX_INSNS_FOR_CALL_INLINE=0'] + ASAN,
                       only=['mir']),
     'asan-inlmax': dict(cc='gcc', flags=['-O1', '-g', '-std=gnu11', '-fsigned-char', '-fPIC', '-w', '-fno-tree-sra', '-fno-ipa-cp-clone',
-                                          '-DMIR_MAX_INSNS_FOR_INLINE=20000', '-DMIR_MAX_INSNS_FOR_CALL_INLINE=5000',
-                                          '-DMIR_MAX_FUNC_INLINE_GROWTH=5000', '-DMIR_MAX_CALLER_SIZE_FOR_ANY_GROWTH_INLINE=100000'] + ASAN,
+                                          '-DMIR_MAX_INSNS_FOR_INLINE=1500', '-DMIR_MAX_INSNS_FOR_CALL_INLINE=1500',
+                                          '-DMIR_MAX_FUNC_INLINE_GROWTH=400', '-DMIR_MAX_CALLER_SIZE_FOR_ANY_GROWTH_INLINE=1500'] + ASAN,
                         only=['mir']),
     'tsan': dict(cc='clang', flags=['-O1', '-g', '-std=gnu11', '-fsigned-char', '-fPIC', '-w', '-fsanitize=thread']),
     'plain': dict(cc='gcc', flags=['-O2', '-g', '-std=gnu11', '-fsigned-char', '-fPIC', '-w', '-fno-tree-sra', '-fno-ipa-cp-clone', '-DNDEBUG']),
